@@ -37,7 +37,7 @@ def plan(prop, tier):
                          "overwriting frames handed out; whole-state projection compared after every call" + "; plus free-form histories (template T_free: every operation allowed at every position, 300 behaviours per family from tlc -simulate with the invariants checked along them, depth 12) chosen by feature cover",
                     extra=[])
     if prop == "C05":
-        return dict(scen=[("obs", fam)], per=(10 if q else 28),
+        return dict(scen=[("obs", fam)], per=(12 if q else 30),
                     rule="histories of three predicts over 15 (weather, observed-variant) reports - variants {orig, x3, shuffled, 30% NaN, zeros, all NaN, absent} of a year, a part-year and a weather feed with gaps - in TLC-enumerated orders, chosen by feature cover; "
                          "prediction hashes taken on the rows every variant produces",
                     extra=["compared on probe rows (those not blanked in the 30%-NaN variant), which every variant predicts"])
